@@ -679,8 +679,10 @@ fn backoff_product(rep: &mut Report) -> u64 {
 
 pub fn run(tier: Tier) -> Report {
     let mut rep = Report::new();
+    // the real loop first: it needs no mirror, so it also decides trees whose glue was edited
+    crate::realx::run_for(&mut rep, "C08", tier.is_quick());
     if let Err(e) = glue_fingerprint() {
-        rep.machinery_errors.push(e);
+        rep.machinery_errors.push(format!("{e} (the mirrored explorations were skipped; the real-loop explorations above were run)"));
         return rep;
     }
     let lim = Limits {
@@ -719,6 +721,9 @@ pub fn run(tier: Tier) -> Report {
 }
 
 pub fn replay(v: &Value) -> Result<(), String> {
+    if let Some(r) = crate::realx::replay_for("C08", v) {
+        return r;
+    }
     if v["exploration"] == "backoff" {
         let mut rep = Report::new();
         backoff_product(&mut rep);
